@@ -491,15 +491,28 @@ def t_forward_retry(it):
             p.oblige(f"{base}/C12/forwards/{n}", kw.get(n) is call_level[n], prop=None)
         resolved = {"sleep_fn": "sleep", "before_sleep": "before_sleep", "sleeper": "sleeper", "attempt_start_hook": "on_attempt_start",
                     "attempt_end_hook": "on_attempt_end"}
+        def opt_id(x):
+            """(is None, identity) of a possibly-unresolved optional callable"""
+            if x is None:
+                return z3.BoolVal(True), z3.IntVal(-1)
+            if isinstance(x, SOpt):
+                n2, i2 = opt_id(x.val)
+                return z3.Or(x.none, n2), i2
+            return z3.BoolVal(False), x.ident
+
         for tparam, src in resolved.items():
-            got = kw.get(tparam)
+            got = kw.get(tparam, "<unbound>")
             cl, pl = call_level[src], pol_level[src]
-            # per-call value when given, else the policy-level one (the path has decided cl.none)
-            k_ = p.known.get(z3.simplify(cl.none).get_id())
-            expect = pl if k_ else cl
-            p.oblige(f"{base}/C16/per-call-{src}-overrides-policy-level", got is expect or (k_ is False and got is cl), prop="C16",
-                     detail={"call_level_none": k_})
-            p.oblige(f"{base}/C12/forwards/{tparam}", got is expect or (k_ is False and got is cl), prop=None)
+            # per-call value when given, else the policy-level one - stated semantically, whether or not this path has
+            # already decided which of the two it is (an optional passed through undecided is still an optional)
+            if isinstance(got, str):
+                ok = False
+            else:
+                (gn, gi), (cn, ci_), (pn, pi) = opt_id(got), opt_id(cl), opt_id(pl)
+                en, ei = z3.And(cn, pn), z3.If(cn, pi, ci_)
+                ok = z3.And(gn == en, z3.Implies(z3.Not(en), gi == ei))
+            p.oblige(f"{base}/C16/per-call-{src}-overrides-policy-level", ok, prop="C16")
+            p.oblige(f"{base}/C12/forwards/{tparam}", ok, prop=None)
         expected = set(target_params(it, {"_run_sync_call": "redress.policy.runner.sync_core:_run_sync_call",
                                           "_run_sync_execute": "redress.policy.runner.sync_core:_run_sync_execute",
                                           "_run_async_call": "redress.policy.runner.async_core:_run_async_call",
@@ -807,6 +820,55 @@ def t_forward_construction(it):
     return h
 
 
+def t_forward_attributes(it):
+    """RetryPolicy / AsyncRetryPolicy expose the inner Retry's configuration as their own attributes: reading an attribute the wrapper does
+    not have yields the retry component's value, and assigning an attribute the retry component has - whatever its current value,
+    None included - reconfigures the retry component (the runner only ever consults that one), never a shadow copy on the wrapper."""
+    stdlib.install_clock(it)
+    WR = "redress.policy.wrappers:"
+    INNER = {"RetryPolicy": ("redress.policy.retry_sync:Retry", "redress.policy.policy:Policy"),
+             "AsyncRetryPolicy": ("redress.policy.retry_async:AsyncRetry", "redress.policy.async_policy:AsyncPolicy")}
+    RETRY_ATTRS = ["classifier", "result_classifier", "sleep", "before_sleep", "sleeper", "budget", "attempt_timeout_s", "deadline",
+                   "max_attempts", "max_unknown_attempts", "per_class_max_attempts", "on_attempt_start", "on_attempt_end"]
+    CASES = [(w, a) for w in INNER for a in RETRY_ATTRS + ["<unrelated>", "policy", "retry"]]
+
+    def h(it):
+        p = it.path
+        wname, attr = CASES[p.choose(len(CASES), "case")]
+        rkey, pkey = INNER[wname]
+        # every attribute of the retry component currently holds either None or some value
+        was_none = p.choose(2, "assigned-attribute-is-currently-None") == 1
+        rfields = {a: (None if (a == attr and was_none) or (a != attr and i % 2) else EnvFn("old:" + a)) for i, a in enumerate(RETRY_ATTRS)}
+        retry = Obj(it.tree.cls(rkey), rfields)
+        policy = Obj(it.tree.cls(pkey), {"retry": retry, "circuit_breaker": None})
+        w = Obj(it.tree.cls(WR + wname), {"_policy": policy})
+        before = dict(retry.fields)
+        new = EnvFn("new-value")
+        name = "my_custom_attribute" if attr == "<unrelated>" else attr
+        base = f"{WR}{wname}.__setattr__"
+        try:
+            it.setattr_value(w, name, new)
+            raised = None
+        except PyRaise as e:
+            raised = e.exc
+        if attr in ("policy", "retry"):
+            p.oblige(f"{base}/C12/{attr}-is-read-only", raised is not None and T(it.lattice.isinstance_cond(raised.cls_t, AttributeError)) is not False
+                     and retry.fields == before, prop=None)
+        elif attr == "<unrelated>":
+            p.oblige(f"{base}/C12/unrelated-attribute-stays-on-the-wrapper", raised is None and w.fields.get(name) is new and retry.fields == before,
+                     prop=None)
+        else:
+            p.oblige(f"{base}/C12/assignment-reconfigures-the-retry-component/{attr}", raised is None and retry.fields.get(attr) is new, prop=None,
+                     detail={"was_None": before[attr] is None})
+            p.oblige(f"{base}/C12/no-shadow-copy-on-the-wrapper/{attr}", attr not in w.fields, prop=None, detail={"was_None": before[attr] is None})
+            p.oblige(f"{base}/C12/other-attributes-untouched", all(retry.fields[a] is before[a] for a in RETRY_ATTRS if a != attr), prop=None)
+            got = it.getattr_value(w, attr)
+            p.oblige(f"{WR}{wname}.__getattr__/C12/reads-the-retry-component/{attr}", got is new, prop=None)
+        p.cover(f"{base}/{attr}")
+
+    return h
+
+
 TASKS = []
 
 
@@ -835,6 +897,9 @@ TASKS += [
                                                                 "redress.policy.retry_helpers:_resolve_sleep", "redress.policy.retry_helpers:_resolve_before_sleep",
                                                                 "redress.policy.retry_helpers:_resolve_sleeper", "redress.policy.retry_helpers:_resolve_attempt_hooks"]),
     Task("forward.policy->retry", t_forward_policy_to_retry, [P, "C16"], []),
+    Task("forward.attributes", t_forward_attributes, [P, "C16"], [
+        "redress.policy.wrappers:RetryPolicy.__setattr__", "redress.policy.wrappers:AsyncRetryPolicy.__setattr__",
+        "redress.policy.wrappers:RetryPolicy.__getattr__", "redress.policy.wrappers:AsyncRetryPolicy.__getattr__"]),
     Task("forward.construction", t_forward_construction, [P, "C16"], [
         "redress.policy.wrappers:RetryPolicy.__init__", "redress.policy.wrappers:AsyncRetryPolicy.__init__",
         "redress.policy.wrappers:RetryPolicy.from_config", "redress.policy.wrappers:AsyncRetryPolicy.from_config",
